@@ -2,13 +2,14 @@
 import itertools
 import json
 from vlib.core import Case, hx
+from vlib import core
 from vlib import tdgen
 
 ID = "C20"
 NEEDS_CLI = True
 RULE = ("op td.hash with every EIP712Domain type drawn from the five standard fields: all 326 duplicate-free orderings of subsets (including empty), "
         "all sequences with one repeated field, one foreign name at each position, each field x each wrong type (incl. bytes032 / uint0256 spellings), "
-        "document without the domain type; equivalent JSON spellings (white space, \\uXXXX escapes in names and type strings) of all 32 sublists and a sample of refused types; the command-line routes hash typeddata [--message-hash] and sign typeddata on a sample of well- and ill-formed domain types; domain values generated to match the declared members; the 31 accepted ones are hashed and judged by the EIP-712 spec; "
+        "document without the domain type; every one of these also as a bare-domain document (primary type EIP712Domain, message = domain); equivalent JSON spellings (white space, \\uXXXX escapes in names and type strings) of all 32 sublists and a sample of refused types; the command-line routes hash typeddata [--message-hash] and sign typeddata on a sample of well- and ill-formed domain types; domain values generated to match the declared members; the 31 accepted ones are hashed and judged by the EIP-712 spec; "
         "non-trivial = distinct domain type; judge = Spec.Eip712 (non-empty sublist of the standard fields)")
 EXHAUSTIVE_SWEEPS = {"quick": ["all 326 duplicate-free orderings of subsets of the 5 standard fields", "all single-repeat sequences of <= 3 fields", "5 fields x 14 wrong types"],
                      "thorough": ["all 326 duplicate-free orderings of subsets of the 5 standard fields", "all single-repeat sequences", "5 fields x 14 wrong types"]}
@@ -18,7 +19,7 @@ VAL = {"name": "Ether Mail", "version": "1", "chainId": 1, "verifyingContract": 
 WRONG = ["string", "bytes", "bytes32", "bytes31", "uint256", "uint8", "int256", "address", "bool", "string[]", "Foo", "bytes032", "uint0256", "uint256[1]"]
 
 
-def doc(fields, include_domain_type=True, values=None):
+def doc(fields, include_domain_type=True, values=None, bare=False):
     types = {"M": [{"name": "x", "type": "uint8"}], "Foo": [{"name": "y", "type": "bool"}]}
     if include_domain_type:
         types["EIP712Domain"] = [{"name": n, "type": t} for n, t in fields]
@@ -27,6 +28,9 @@ def doc(fields, include_domain_type=True, values=None):
         dom[n] = VAL.get(n, "v")
     if values is not None:
         dom = values
+    if bare:
+        # the domain signed as a message of its own: primary type EIP712Domain, message = the domain value
+        return json.dumps({"types": types, "primaryType": "EIP712Domain", "domain": dom, "message": dict(dom)})
     return json.dumps({"types": types, "primaryType": "M", "domain": dom, "message": {"x": 1}})
 
 
@@ -39,6 +43,9 @@ def gen(rng, tier):
         nt = key not in seen
         seen.add(key)
         cases.append(Case("td.hash " + hx(doc(fields, **kw)), tags=tags, nontrivial=nt))
+        if kw.get("include_domain_type", True):
+            # the shape of the domain type is checked whatever the primary type is — also when it is the domain type itself
+            cases.append(Case("td.hash " + hx(doc(fields, bare=True, **kw)), tags=tags + ("bare-domain",), nontrivial=False))
 
     for k in range(0, 6):
         for sub in itertools.permutations(STD, k):
@@ -87,8 +94,8 @@ def gen(rng, tier):
     for fields in sample:
         d = hx(doc(fields))
         for mh in (0, 1):
-            cases.append(Case("cli.hash_td %s %d" % (d, mh), tags=("cli", "hash_td", "message-hash:%d" % mh), runner="cli", meta={"via_file": rng.random() < 0.5}))
-        cases.append(Case("cli.sign_td %s - default %s" % (mn, d), tags=("cli", "sign_td"), runner="cli", meta={"via": {}, "via_file": rng.random() < 0.5}))
+            cases.append(Case("cli.hash_td %s %d" % (d, mh), tags=("cli", "hash_td", "message-hash:%d" % mh), runner="cli", meta={"via_file": core.input_route(rng)}))
+        cases.append(Case("cli.sign_td %s - default %s" % (mn, d), tags=("cli", "sign_td"), runner="cli", meta={"via": {}, "via_file": core.input_route(rng)}))
     for mh in (0, 1):
         cases.append(Case("cli.hash_td %s %d" % (hx(doc([STD[0]], include_domain_type=False)), mh), tags=("cli", "hash_td", "no-domain-type"), runner="cli", meta={"via_file": False}))
     # domain value not matching an accepted domain type
